@@ -25,12 +25,13 @@ def run(m):
         subprocess.run(["rsync", "-a", "--exclude", ".git", "--exclude", "__pycache__", "--exclude", "docs", REPO + "/", t + "/"], check=True)
         open(os.path.join(t, rel), "w").write(text)
         try:
-            r = subprocess.run(["/venv/bin/python", "-m", "pytest", "-q", "-x", "-p", "no:cacheprovider", "--timeout=120", "-n", "4", "--deselect", "tests/types/test_typehints.py", "--deselect", "tests/retry/test_retry.py::test_order"], cwd=t, capture_output=True, text=True, timeout=1500)
+            r = subprocess.run(["/venv/bin/python", "-m", "pytest", "-q", "-x", "-ra", "-p", "no:cacheprovider", "--timeout=120", "-n", "4", "--deselect", "tests/types/test_typehints.py", "--deselect", "tests/retry/test_retry.py::test_order"], cwd=t, capture_output=True, text=True, timeout=1500)
             last = [l for l in r.stdout.splitlines() if " passed" in l or " failed" in l or " error" in l][-1:]
             ok = r.returncode == 0
+            failed = [l.split(" - ")[0] for l in r.stdout.splitlines() if l.startswith(("FAILED", "ERROR"))][:4]
         except subprocess.TimeoutExpired:
-            last, ok = ["timeout"], False
-        return {"kind": kind, "where": where, "suite_passes": ok, "summary": last[0] if last else ""}
+            last, ok, failed = ["timeout"], False, []
+        return {"kind": kind, "where": where, "suite_passes": ok, "summary": last[0] if last else "", "failed": failed}
     finally:
         shutil.rmtree(t, ignore_errors=True)
 
